@@ -119,6 +119,19 @@ theorem C20_bytes (img : Image) (rel size fileOff n : Nat)
   obtain ⟨sec, hsec, hn, dl, hdl, hle, hoff, hin⟩ := readRange_ok h
   exact ⟨⟨sec, _, dl, hsec, rfl, hdl, hn, hle, hoff, hin⟩, fun lo w bs hs => fileSlice_some hs⟩
 
+/-- **No panic in the read, any image base** (after fix 37c4c2d8: `image_base.checked_add(start)`): an image
+whose base is within 4 GiB of 2^64 answers `AddressNotFound` instead of overflowing. -/
+theorem C20_read_no_panic_any_base (img : Image) (rel size : Nat) : readRange img rel size ≠ .panic := by
+  unfold readRange
+  simp only
+  split
+  · simp
+  · split
+    · simp
+    · split
+      · simp
+      · split <;> simp
+
 /-- **No panic in the read.** `image_base + start_address` cannot overflow `u64` when the image base leaves
 room for a 32-bit relative address (true for every object whose addresses are below 2^64 − 2^32). -/
 theorem C20_read_no_panic (img : Image) (rel size : Nat) (hrel : rel ≤ u32max)
